@@ -114,6 +114,9 @@ def run(ctx):
     # ---- R4 elements pulled from a resumable iterator are consumed before a return
     resumable_items_consumed(ctx, P, "R4")
 
+    # ---- R5 what an intermediate operator collected is forwarded before a stop is propagated
+    collected_output_forwarded(ctx, P, "R5")
+
     # ---- R2 = C16-R4 (spill codec)
     sub = type("Sub", (), {})()
     obs_before = len(ctx.obs)
@@ -211,3 +214,40 @@ def _switch_blocks_after(f, call_block):
         nxt = f.succ()[b]
         b = nxt[0] if len(nxt) == 1 else None
     return out
+
+
+def collected_output_forwarded(ctx, P, rule):
+    """A pipeline runs an intermediate push operator against a ChunkCollector and hands what was collected to the next
+    operator. On every path from that push to a return, the collector is either known to be empty or has been taken
+    (into_single_chunk / into_chunks): an early return on the operator's stop request leaves the rows it produced with
+    that very call in the collector - a limit in the middle of a chain loses its last chunk."""
+    n = 0
+    for f in sorted(P.fns.values(), key=lambda f: f.id):
+        if not f.id.startswith("grafeo_core::execution::") or "::tests::" in f.id or f.kind == "closure":
+            continue
+        fx = None
+        for bi, t in f.calls():
+            if not callee_name(t).endswith("PushOperator::push") or len(t["args"]) < 3:
+                continue
+            fx = fx or FlowCx(P, f)
+            sink_ty = fx.tags(t["args"][2])
+            # the sink argument is a local ChunkCollector (created in this function)
+            if not any(x.startswith("call:ChunkCollector::new") or x == "call:ChunkCollector::new" for x in sink_ty):
+                continue
+            n += 1
+            taken = {b for b, t2 in f.calls() if callee_name(t2).split("::")[-1] in ("into_single_chunk", "into_chunks", "take_chunks")
+                     and "ChunkCollector" in callee_name(t2)}
+            empty = {b for b in range(len(f.blocks)) if not f.blocks[b]["cl"] and
+                     any(x[0] == "call" and x[1].endswith("ChunkCollector::is_empty") and x[2] is True for x in fx.facts_at(b))}
+            # the error return of the `?` on the push itself is not a lost-output path
+            errs = {b for b in range(len(f.blocks)) if not f.blocks[b]["cl"] and
+                    any(x[0] == "variant" and x[2] in ("Break", "Err") and x[1] in ("core::ops::control_flow::ControlFlow", "core::result::Result")
+                        for x in fx.facts_at(b))}
+            nxt = t.get("t")
+            ok = nxt is not None and must_pass(f, nxt, taken | empty | errs, set(f.exits()))
+            ctx.ob(rule, "%s#forwards-collected-output[%d]" % (short_id(f.id), n), ok,
+                   what="%s can return after an intermediate operator has pushed rows into the collector without forwarding them "
+                        "(a path to the return on which the collector is neither empty nor taken): an operator that emits and asks "
+                        "to stop in the same call, like a limit, loses its last chunk unless it is the last operator"
+                        % short_id(f.id), where=f.loc(t["line"]))
+    ctx.floor(rule, n, 3, "pushes into an intermediate ChunkCollector")
